@@ -262,7 +262,10 @@ pub struct LocalInfo {
     pub collecting: bool,
 }
 
-pub use crate::ebr_impl::verif_shim::{VCollector, VHandle, VList, VQueue};
+pub use crate::ebr_impl::verif_shim::{
+    defer_unchecked, guard_collect, guard_global_epoch, guard_local_id, guard_repin_without_collect,
+    guard_try_advance, VCollector, VHandle, VList, VQueue,
+};
 pub use crate::ebr_impl::Tagged;
 pub use crate::utils::verif_shim::*;
 
